@@ -150,3 +150,30 @@ def power_helpers(rep, F, rule='R-SCALE'):
         else:
             rep.undecided(rule, key, (msgs or ['no path decided'])[0][:200], fn.where())
     return n
+
+
+def pow_fits(ctx, rule='POW-FITS'):
+    """every 10uN.pow(k) in the power-of-ten helpers provably fits its integer type: the exponent is bounded by a dominating
+    `k < c` test or by a div_rem remainder (interval reasoning of the panic engine, debug-profile facts).  10u64.pow(20)
+    panics in debug builds and wraps to garbage in release builds"""
+    from rules.panic_clause import panic_clause
+    from report import Report, OK, VIOLATION
+    rep = ctx.rep
+    Fd = ctx.facts('default', 'dbg')
+    bodies = [n for n in ('arithmetic::multiply_by_ten_to_the_uint', 'arithmetic::ten_to_the_uint', 'arithmetic::ten_to_the_u64') if n in Fd.fns]
+    before = len(rep.obs)
+    panic_clause(ctx, Fd, [], only_bodies=bodies, what='powers of ten')
+    new = rep.obs[before:]
+    rep.obs = rep.obs[:before]
+    n = 0
+    for o in new:
+        if 'num::pow' not in o['key']:
+            continue
+        n += 1
+        o = dict(o)
+        o['rule'] = rule
+        o['key'] = o['key'].replace(':R-PANIC:', ':%s:' % rule)
+        if o['status'] == VIOLATION:
+            o['detail'] = 'the exponent of 10uN.pow(..) is not provably small enough for the integer type (10^20 does not fit u64): ' + o['detail'][:200]
+        rep.obs.append(o)
+    return n
